@@ -4,7 +4,8 @@ C06 — quadrant split/join is lossless; symmetrisation is a projector.
 proofs : lean/PyAbel/Props/C06.lean (all shapes, all masks)
 K      : get_image_quadrants / put_image_quadrants vs the Lean model, bit-for-bit ('average'),
          1e-13 ('fourier', FFT rounding)
-S      : brute-force mirror/mean reference written from the docstring, independent of PyAbel
+S      : brute-force mirror/mean reference written from the docstring, independent of PyAbel; integer / float32 images with
+         both symmetrisation methods
 """
 import itertools
 import json
